@@ -84,8 +84,9 @@ def g_problem(rng, tier_):
     name = rng.choice(PROBLEMS)
     x0 = Fraction(rng.randint(-8, 8), 4) if name in ("exp", "osc", "riccati", "poly", "decoupled") and rng.random() < 0.5 else Fraction(0)
     span = 4 if tier_ == "quick" else rng.choice([4, 8])
-    if name == "exp": params = [Fraction(rng.choice([1, -1, 2, -2, -3, 1, -1]), rng.choice([1, 1, 2, 3])), rq(rng, 3, nonzero=True)]
-    elif name == "osc": params = [Fraction(rng.randint(1, 4), rng.choice([1, 1, 2])), rq(rng, 3), rq(rng, 3, nonzero=True)]
+    dens = (1, 1, 2, 4, 4, 2, 3) if rng.random() < 0.6 else (1, 2, 4)          # ~20% of the initial values are not dyadic
+    if name == "exp": params = [Fraction(rng.choice([1, -1, 2, -2, -3, 1, -1]), rng.choice([1, 1, 2, 3])), rq(rng, 3, dens=dens, nonzero=True)]
+    elif name == "osc": params = [Fraction(rng.randint(1, 4), rng.choice([1, 1, 2])), rq(rng, 3, dens=dens), rq(rng, 3, dens=dens, nonzero=True)]
     elif name == "riccati": params = [Fraction(rng.randint(1, 12), 4)]
     elif name == "poly": params = [Fraction(rng.randint(-3, 3), rng.choice([1, 2])) for _ in range(rng.randint(1, 4))] + [rq(rng, 3)]
     elif name == "decoupled": params = [Fraction(rng.choice([1, -1, -2]), rng.choice([1, 2])), Fraction(rng.randint(1, 12), 4)]
@@ -102,6 +103,20 @@ def g_problem(rng, tier_):
     if rng.random() < 0.2:
         tol = rng.choice(["1/1000", "1/1000000", "1/1000000000"])
     return {"prob": name, "params": fsl(params), "x0": fs(x0), "pts": fsl(pts), "tol": tol}
+
+
+def _dyadic(v):
+    d = Fraction(v).denominator
+    return d & (d - 1) == 0
+
+
+def kfclass_of(spec, prec):
+    """class used to match the two known findings"""
+    name = spec["prob"]; p = frl(spec.get("params", []))
+    if name == "exp" and not _dyadic(p[1]): return "linear-nondyadic-y0"
+    if name == "osc" and not (_dyadic(p[1]) and _dyadic(p[2])): return "linear-nondyadic-y0"
+    if name == "osc" and p[0] >= 4 and prec <= 46: return "lowprec-fast-osc"
+    return "std"
 
 
 def boundaries_of(f):
@@ -249,7 +264,8 @@ def run(rep, tier_, rng):
         spec = g_problem(rng, tier_)
         prec = rng.choice(precs)
         cid = "o%03d" % n
-        call = {"fn": "odefun", "regime": spec["prob"], "kclass": spec["prob"], "prec": prec, "spec": spec, "sub_seed": rng.getrandbits(32)}
+        call = {"fn": "odefun", "regime": spec["prob"], "kclass": spec["prob"], "kfclass": kfclass_of(spec, prec), "prec": prec, "spec": spec,
+                "sub_seed": rng.getrandbits(32)}
         sub = random.Random(call["sub_seed"])
         try:
             R = run_problem(mp, spec, prec, sub, 25 if q else 300)
@@ -301,7 +317,7 @@ def replay(rep, path):
         sub = random.Random(r.get("sub_seed", 0))
         R = run_problem(mp, spec, r["prec"], sub, 900)
         cid = "replay"
-        call = {k: r[k] for k in ("fn", "regime", "kclass", "prec", "spec", "sub_seed") if k in r}
+        call = {k: r[k] for k in ("fn", "regime", "kclass", "kfclass", "prec", "spec", "sub_seed") if k in r}
         new, direct = build_instances(cid, spec, r["prec"], R, lambda pts, k: list(pts), 99)
         for d in direct:
             rep.violation("C34 odefun: %s" % d, dict(call, clause="nonfinite"))
